@@ -3,8 +3,6 @@
 package cl
 
 import (
-	"math/big"
-
 	"github.com/ohler55/slip"
 )
 
@@ -58,7 +56,6 @@ func (f *Uniq) Call(s *slip.Scope, args slip.List, depth int) slip.Object {
 	// Maybe not the most efficient approach. For each number walk the rest of
 	// the list looking for a match. Keep shortening the list until and repeat
 	// until only one remains.
-	var arg slip.Object
 	for start := len(args) - 1; 0 < start; start-- {
 		var target slip.Object
 		for pos := start; 0 <= pos; pos-- {
@@ -69,36 +66,10 @@ func (f *Uniq) Call(s *slip.Scope, args slip.List, depth int) slip.Object {
 				}
 				continue
 			}
-			arg, target = slip.NormalizeNumber(args[pos], target)
-			switch ta := arg.(type) {
-			case slip.Fixnum:
-				if target.(slip.Fixnum) == ta {
-					return nil
-				}
-			case slip.SingleFloat:
-				if target.(slip.SingleFloat) == ta {
-					return nil
-				}
-			case slip.DoubleFloat:
-				if target.(slip.DoubleFloat) == ta {
-					return nil
-				}
-			case *slip.LongFloat:
-				if (*big.Float)(target.(*slip.LongFloat)).Cmp((*big.Float)(ta)) == 0 {
-					return nil
-				}
-			case *slip.Bignum:
-				if (*big.Int)(target.(*slip.Bignum)).Cmp((*big.Int)(ta)) == 0 {
-					return nil
-				}
-			case *slip.Ratio:
-				if (*big.Rat)(target.(*slip.Ratio)).Cmp((*big.Rat)(ta)) == 0 {
-					return nil
-				}
-			case slip.Complex:
-				if complex128(target.(slip.Complex)) == complex128(ta) {
-					return nil
-				}
+			// Compared by value, normalizing rounds a rational to the float
+			// type of the other number.
+			if same(args[pos], target) != nil {
+				return nil
 			}
 		}
 	}
